@@ -182,4 +182,83 @@ theorem iteratePaths_error_denies (ext : Ext) (u : User) (path ty : GoString)
   rw [iteratePaths_eq] at h ⊢
   exact loop_error_denies ext u path ty u.permissions false h
 
+/-- the file system as the model's decision sees it: what `EvalSymlinks` + `Abs`, `permissions.ToRead` and `Lstat` answer -/
+def fsOf (ext : Ext) (user : GoString) : FsOracle where
+  resolve p :=
+    if (ext.evalSymlinks p).2 = none ∧ (ext.absPath (ext.evalSymlinks p).1).2 = none then some (ext.absPath (ext.evalSymlinks p).1).1
+    else none
+  regular c := decide ((ext.osLstat c).2 = none) && (ext.osLstat c).1.regular
+  osReadable c := decide ((ext.osToRead user c).2 = none)
+
+/-- the unexported check on a resolved path -/
+theorem hasFilePermission_inner (ext : Ext) (u : User) (clean ty : GoString) :
+    (User.hasFilePermission ext u clean ty).2.1 =
+      (if !(fsOf ext u.Name).osReadable clean then false
+       else if !(fsOf ext u.Name).regular clean then false
+       else iterateRules (oracleOf ext) ty clean (u.permissions.map parseRule) false) := by
+  unfold User.hasFilePermission fsOf
+  simp only []
+  by_cases h1 : (ext.osToRead u.Name clean).2 = none
+  · have h1' : ((ext.osToRead u.Name clean).2 != none) = false := by rw [h1]; rfl
+    simp only [h1', h1, Bool.false_eq_true, if_false, decide_true, Bool.not_true]
+    by_cases h2 : (ext.osLstat clean).2 = none
+    · have h2' : ((ext.osLstat clean).2 != none) = false := by rw [h2]; rfl
+      simp only [h2', h2, Bool.false_eq_true, if_false, decide_true, Bool.true_and]
+      by_cases h3 : (ext.osLstat clean).1.regular = true
+      · simp only [h3, Bool.not_true, Bool.false_eq_true, if_false]
+        have hr := iteratePaths_refines ext u clean ty
+        have he := iteratePaths_error_denies ext u clean ty
+        by_cases h4 : (User.iteratePaths ext u clean ty).2.2 = none
+        · have h4' : ((User.iteratePaths ext u clean ty).2.2 != none) = false := by rw [h4]; rfl
+          simp only [h4', Bool.false_eq_true, if_false]; exact hr
+        · have h4' : ((User.iteratePaths ext u clean ty).2.2 != none) = true := by simp [h4]
+          simp only [h4', if_true, bne_self_eq_false, Bool.false_eq_true, if_false]
+          rw [← hr, he h4]
+      · have h3' : (ext.osLstat clean).1.regular = false := by simpa using h3
+        simp only [h3', Bool.not_false, if_true, bne_self_eq_false, Bool.false_eq_true, if_false]
+    · have h2' : ((ext.osLstat clean).2 != none) = true := by simp [h2]
+      simp only [h2', if_true, h2, decide_false, Bool.false_and, Bool.not_false, bne_self_eq_false, Bool.false_eq_true, if_false]
+  · have h1' : ((ext.osToRead u.Name clean).2 != none) = true := by simp [h1]
+    simp only [h1', if_true, h1, decide_false, Bool.not_false]
+
+/-- **the translated `HasFilePermission` is the model's decision** for every user, rule list, path and every answer of the
+    file system and the regexp engine -/
+theorem HasFilePermission_refines (ext : Ext) (u : User) (path : GoString) :
+    (User.HasFilePermission ext u path READFILES).2
+      = hasFilePermission (fsOf ext u.Name) (oracleOf ext) u.Name u.permissions path := by
+  unfold User.HasFilePermission hasFilePermission
+  simp only []
+  by_cases hbg : u.Name = Facts.scheduleUserBytes ∨ u.Name = Facts.continuousUserBytes
+  · have : ((u.Name == ([68, 84, 65, 73, 76, 45, 83, 67, 72, 69, 68, 85, 76, 69] : GoString)) ||
+        (u.Name == ([68, 84, 65, 73, 76, 45, 67, 79, 78, 84, 73, 78, 85, 79, 85, 83] : GoString))) = true := by
+      rcases hbg with h | h <;> rw [h] <;> decide
+    rw [if_pos this, if_pos hbg]
+  · have : ¬ ((u.Name == ([68, 84, 65, 73, 76, 45, 83, 67, 72, 69, 68, 85, 76, 69] : GoString)) ||
+        (u.Name == ([68, 84, 65, 73, 76, 45, 67, 79, 78, 84, 73, 78, 85, 79, 85, 83] : GoString))) = true := by
+      intro h
+      apply hbg
+      simp only [Bool.or_eq_true, beq_iff_eq] at h
+      rcases h with h | h
+      · left; rw [h]; decide
+      · right; rw [h]; decide
+    rw [if_neg this, if_neg hbg]
+    by_cases h1 : (ext.evalSymlinks path).2 = none
+    · have h1' : ((ext.evalSymlinks path).2 != none) = false := by rw [h1]; rfl
+      simp only [h1', Bool.false_eq_true, if_false]
+      by_cases h2 : (ext.absPath (ext.evalSymlinks path).1).2 = none
+      · have h2' : ((ext.absPath (ext.evalSymlinks path).1).2 != none) = false := by rw [h2]; rfl
+        simp only [h2', Bool.false_eq_true, if_false]
+        have hres : (fsOf ext u.Name).resolve path = some (ext.absPath (ext.evalSymlinks path).1).1 := by
+          simp [fsOf, h1, h2]
+        rw [hres]
+        have hin := hasFilePermission_inner ext u (ext.absPath (ext.evalSymlinks path).1).1 READFILES
+        simp only []
+        split <;> (split <;> exact hin)
+      · have h2' : ((ext.absPath (ext.evalSymlinks path).1).2 != none) = true := by simp [h2]
+        have hres : (fsOf ext u.Name).resolve path = none := by simp [fsOf, h1, h2]
+        simp only [h2', if_true, hres]
+    · have h1' : ((ext.evalSymlinks path).2 != none) = true := by simp [h1]
+      have hres : (fsOf ext u.Name).resolve path = none := by simp [fsOf, h1]
+      simp only [h1', if_true, hres]
+
 end Dtail.GenPerm
